@@ -337,7 +337,7 @@ def oracle_tables(ctx, fw, tx):
     return n
 
 
-def oracle_rows(ctx, fw, tx, fired, ncur):
+def oracle_rows(ctx, fw, tx, fired, curs):
     """the property stated directly on the implementation's observations: frames in which the real mframe_schedule() called
     tdma_schedule_set() (fired[(task, kind, sacch)] = set of current frames) against the rows of the real layouts[]"""
     E, T, P = tx["enum"], fw["tasks"], tx["pchan"]
@@ -381,13 +381,13 @@ def oracle_rows(ctx, fw, tx, fired, ncur):
             for what, kind, sc, d, res in comps:
                 f = fired.get((t, kind, sc), frozenset())
                 bad = None
-                for cur in range(ncur):
-                    if (cur in f) != (((cur + ahead) % per) in res):
+                for cur in curs:
+                    if (cur in f) != ((((cur + ahead) % HYPER) % per) in res):
                         bad = cur
                         break
-                n += ncur
+                n += len(curs)
                 if bad is not None:
-                    fn = bad + ahead
+                    fn = (bad + ahead) % HYPER
                     row = fr[fn % per]
                     ctx.oracle_fail(
                         "firmware %s %s at current frame %d (on air in frame %d) but trxcon layout %d (%s, tn %d) frame %d is %s"
@@ -440,7 +440,10 @@ def run(ctx):
     tname = {v: k for k, v in fw["tasks"].items()}
 
     # ---- (1) firmware: the real mframe_schedule() for every task x every current frame of the 51*26*8 cycle (+ boundaries, task sets)
-    pairs = [(1 << t, cur) for t in tasks for cur in range(CYCLE)]
+    curs = list(range(CYCLE))
+    if thorough:  # also the last cycle of the hyperframe, i.e. the wrap 2715647 -> 0 on the implementation
+        curs += list(range(HYPER - CYCLE, HYPER))
+    pairs = [(1 << t, cur) for t in tasks for cur in curs]
     nfull = len(pairs)
     extra = fn_points(rng, 300 if not thorough else 5000)
     for cur in extra:
@@ -479,7 +482,7 @@ def run(ctx):
         for k in (0, nfull // 3, nfull - 1, nfull + 5, len(pairs) - 1):
             ctx.sample(dict(op="mframe_schedule", tasks_mask=pairs[k][0], fn=pairs[k][1], calls=calls[k][:6]))
         # ---- (4) the property on the implementation's observations
-        n = oracle_rows(ctx, fw, tx, fired, CYCLE)
+        n = oracle_rows(ctx, fw, tx, fired, curs)
         ctx.evaluations += n
         ctx.count("oracle:row-frame comparisons", n)
         ctx.exhaustive = True
